@@ -260,6 +260,15 @@ def debug_variant(col, n, edges, prios, rng, rp):
                 col.violation("C07", "order_not_the_unique_greedy_order(executor_target_with_debug_nodes_on)",
                               {"observed": order, "predicted": exp, "debug": [ids[i] for i in sorted(debug)], "target": ids[t],
                                "cp_spec": {ids[i]: cp[i] for i in sorted(ran)}}, rp)
+        # the same DAG with its debug nodes switched OFF, called several times: table and order stay what they were
+        cfg.RUN_DEBUG_NODES = False
+        d2, _e2, _p2 = S.build_tawazi(sp)
+        nd_set = set(nondbg)
+        for rep in range(3):
+            way = "call_%d_with_debug_nodes_off" % (rep + 1)
+            check_table(col, way, dict(d2.graph_ids.compound_priority), cp, ids, set(range(n)), rp)
+            run_order(col, way, d2, ids, g, cp, nd_set, rp)
+        col.counters["cp_repeated_calls_with_debug_nodes_off"] += 1
     finally:
         cfg.RUN_DEBUG_NODES = old
 
@@ -288,21 +297,25 @@ def job_cp(j):
         col.counters["random_shapes"] += 1
     res = col.result()
     if j.get("pid") and j["pid"] != "C07":
-        # the same workload under another property (C06): only the ORDER observations are that property's clauses
-        keep = []
-        for v in res["violations"]:
-            if v["mech"].startswith("order_not_the_unique_greedy_order"):
-                keep.append(dict(v, prop=j["pid"], mech=v["mech"].replace("order_not_the_unique_greedy_order", "start_order_is_not_by_compound_priority"),
-                                 replay=dict(v["replay"], pid=j["pid"])))
-        res["violations"] = keep
+        res = _remap(res, j["pid"], tag_replay=True)
     return res
 
 
-def _remap(res, pid):
+def _remap(res, pid, tag_replay=False):
+    """The same workload under another property: C06 owns every ORDER observation; C15 owns what differs between the first
+    and a later call on one object (repeated calls with debug nodes off, executor retried after a failure)."""
     keep = []
     for v in res["violations"]:
-        if v["mech"].startswith("order_not_the_unique_greedy_order"):
-            keep.append(dict(v, prop=pid, mech=v["mech"].replace("order_not_the_unique_greedy_order", "start_order_is_not_by_compound_priority")))
+        m = v["mech"]
+        v2 = None
+        if pid == "C06" and m.startswith("order_not_the_unique_greedy_order"):
+            v2 = dict(v, prop=pid, mech=m.replace("order_not_the_unique_greedy_order", "start_order_is_not_by_compound_priority"))
+        elif pid == "C15" and ("call_2_with" in m or "call_3_with" in m or "executor_retry" in m):
+            v2 = dict(v, prop=pid, mech="later_call_schedules_differently_from_the_first(%s)" % m)
+        if v2 is not None:
+            if tag_replay:
+                v2["replay"] = dict(v["replay"], pid=pid)
+            keep.append(v2)
     res["violations"] = keep
     return res
 
